@@ -18,7 +18,8 @@
    separate, hash-addressed entry.  Hashes are symbolic: the hash of a node is its term, the
    hash of the data of value v is D(v). *)
 EXTENDS Integers, Sequences, FiniteSets, TLC
-CONSTANTS W, KeyList, Vals, MaxOps, HistOn
+CONSTANTS W, KeyList, Vals, MaxOps, HistOn,
+          AliasVal, AliasKey  \* the data of value AliasVal is byte-identical to the serialized leaf node of key AliasKey (see DH)
 VARIABLES m,        \* the target map (chosen initially, then fixed)
           reqs,     \* outstanding requests: Seq([h, b])  b = buckets of the requesters ("T" trie node, "B" bytes)
           store,    \* local store: set of <<bucket, hash>>
@@ -54,21 +55,33 @@ Canon(S) == IF S = {} THEN Nil
 PairsOf(mm) == {<<k, mm[k]>> : k \in {x \in Keys : mm[x] # NoVal}}
 Root == Canon(PairsOf(m))
 
+\* Hash of the data of value v.  One value is special: its data bytes ARE the serialization of the leaf node that holds
+\* key AliasKey in the same target (possible because both buckets use the same hash function), so the same hash is wanted
+\* in the MerkleTrie bucket (as a node) and in the BytesByHash bucket (as object data).
+RECURSIVE LeafOf(_, _)
+LeafOf(n, keys) == CASE n.t = "N" -> Nil
+                     [] n.t = "L" -> IF keys = n.k THEN n ELSE Nil
+                     [] n.t = "E" -> IF Len(keys) >= Len(n.k) /\ SubSeq(keys, 1, Len(n.k)) = n.k THEN LeafOf(n.n, Rest(keys, Len(n.k) + 1)) ELSE Nil
+                     [] n.t = "B" -> IF keys = <<>> THEN Nil ELSE LeafOf(n.c[keys[1]], Tail(keys))
+AliasLeaf == LeafOf(Root, AliasKey)
+AliasOK == AliasVal \in Vals /\ AliasKey \in Keys /\ m[AliasKey] \notin {NoVal, AliasVal} /\ AliasLeaf # Nil
+DH(v) == IF v = AliasVal /\ AliasOK THEN AliasLeaf ELSE D(v)
 \* what the requester of entry h asks for when h arrives, in the order of the RequestData calls
 RECURSIVE BrWants(_, _)
 BrWants(n, i) == IF i = W THEN <<>> ELSE (IF n.c[i] = Nil THEN <<>> ELSE << <<"T", n.c[i]>> >>) \o BrWants(n, i + 1)
 Wants(h) == CASE h.t = "D" -> <<>>
-              [] h.t = "L" -> << <<"B", D(h.v)>> >>
+              [] h.t = "L" -> << <<"B", DH(h.v)>> >>
               [] h.t = "E" -> << <<"T", h.n>> >>
-              [] h.t = "B" -> BrWants(h, 0) \o (IF h.v = NoVal THEN <<>> ELSE << <<"B", D(h.v)>> >>)
+              [] h.t = "B" -> BrWants(h, 0) \o (IF h.v = NoVal THEN <<>> ELSE << <<"B", DH(h.v)>> >>)
 \* every entry of the complete state
 RECURSIVE Entries(_)
 Entries(n) == IF n = Nil THEN {}
               ELSE {<<"T", n>>} \cup
-                   (CASE n.t = "L" -> {<<"B", D(n.v)>>}
+                   (CASE n.t = "L" -> {<<"B", DH(n.v)>>}
                       [] n.t = "E" -> Entries(n.n)
-                      [] n.t = "B" -> UNION {Entries(n.c[i]) : i \in 0..W-1} \cup (IF n.v = NoVal THEN {} ELSE {<<"B", D(n.v)>>}))
+                      [] n.t = "B" -> UNION {Entries(n.c[i]) : i \in 0..W-1} \cup (IF n.v = NoVal THEN {} ELSE {<<"B", DH(n.v)>>}))
 Target == Entries(Root)
+\* every (bucket, hash) pair counts: a hash wanted in both buckets must be stored in both
 
 ReqIdx(rs, h) == {i \in 1..Len(rs) : rs[i].h = h}
 \* RequestData(bucket, h) while serving the request at position mark: [rs, mark]
@@ -86,8 +99,9 @@ RequestAll(rs, st, mark, ws) == IF ws = <<>> THEN [rs |-> rs, mark |-> mark]
 RECURSIVE Serve(_, _, _, _, _)
 Serve(rs, st, mark, h, bs) ==          \* bs = remaining requester buckets
   IF bs = <<>> THEN [rs |-> rs, st |-> st]
-  ELSE LET st1 == st \cup {<<Head(bs), h>>}
-           r == RequestAll(rs, st1, mark, Wants(h))
+  ELSE LET st1 == st \cup {<<Head(bs), h>>}                  \* written into the bucket of THIS requester
+           \* a trie-node requester resolves the children, an object requester (bucket "B") just keeps its data
+           r == RequestAll(rs, st1, mark, IF Head(bs) = "T" THEN Wants(h) ELSE <<>>)
        IN Serve(r.rs, st1, r.mark, h, Tail(bs))
 OnData(i) == LET h == reqs[i].h
                  r == Serve(reqs, store, i, h, reqs[i].b)
@@ -104,6 +118,7 @@ Init == /\ m \in [Keys -> Vals \cup {NoVal}] /\ PairsOf(m) # {}
         /\ reqs = <<[h |-> Canon(PairsOf(m)), b |-> <<"T">>]>>       \* Resolve() on the unknown root
         /\ store = {} /\ nops = 0
         /\ hist = IF HistOn THEN <<[op |-> "init", i |-> 0, keys |-> KeyList, w |-> W, map |-> [i \in 1..NK |-> m[KeyList[i]]],
+                                    alias |-> IF AliasOK THEN [v |-> AliasVal, k |-> CHOOSE i \in 1..NK : KeyList[i] = AliasKey] ELSE [v |-> 0, k |-> 0],
                                     unres |-> 1, nstored |-> 0, ntarget |-> Cardinality(Entries(Canon(PairsOf(m)))),
                                     done |-> FALSE, complete |-> FALSE]>> ELSE <<>>
 Can == MaxOps = 0 \/ nops < MaxOps
@@ -137,7 +152,7 @@ DoneIffComplete == (reqs = <<>>) <=> (Target \subseteq store)
 \* needs is stored or requested (what makes "no requests" mean "complete")
 RequestsSane == /\ \A i, j \in 1..Len(reqs) : reqs[i].h = reqs[j].h => i = j
                 /\ \A i \in 1..Len(reqs) : \E b \in {"T", "B"} : <<b, reqs[i].h>> \in Target \ store
-Closed == \A e \in store : \A j \in 1..Len(Wants(e[2])) :
+Closed == \A e \in {x \in store : x[1] = "T"} : \A j \in 1..Len(Wants(e[2])) :
              LET w == Wants(e[2])[j] IN w \in store \/ ReqIdx(reqs, w[2]) # {}
 \* every delivery of a requested payload makes progress
 Progress == [][(reqs' # reqs) => (Cardinality(store') > Cardinality(store))]_vars
